@@ -75,6 +75,77 @@ def render_all(ctx: Ctx, progs: list[dict], lib: dict, consts: dict) -> None:
 # ---------------------------------------------------------------------------------------------------
 # evaluating a translated expression
 # ---------------------------------------------------------------------------------------------------
+def _finish_value(r):
+    import sympy
+
+    if r is sympy.true or r is sympy.false:
+        return ("bool", bool(r))
+    if getattr(r, "free_symbols", None):
+        return ("bad", f"free symbols remain: {sorted(map(str, r.free_symbols))}")
+    if not getattr(r, "is_number", False):
+        r = sympy.simplify(r)
+    if r.is_Rational:
+        return ("num", Fraction(int(r.p), int(r.q)))
+    c = complex(r)
+    if c != c or abs(c.imag) > 1e-12 or abs(c.real) == float("inf"):
+        return ("bad", f"not a finite real number: {r}")
+    return ("num", c.real)
+
+
+def lazy_eval(expr, sub: dict):
+    """First-true-wins evaluation that does not touch what the piecewise reading never needs.
+
+    ``expr.subs`` evaluates every condition of every piece (and both sides of every And) eagerly and raises on
+    ``zoo < 1`` even when an earlier piece already decides; the VALUE of the expression does not depend on those.
+    Conditions are evaluated in Kleene logic: a conjunct that cannot be evaluated is 'unknown', And with a false
+    conjunct is false, Or with a true disjunct is true (sympy reorders the arguments of And / Or, so program order
+    is not available).  Raises when the value really is undetermined.
+    """
+    import sympy
+    from sympy.logic.boolalg import ITE, And, Not, Or
+
+    def ev(e):
+        if isinstance(e, sympy.Piecewise):
+            for val, cond in e.args:
+                cv = ev(cond)
+                if cv is sympy.true:
+                    return ev(val)
+                if cv is not sympy.false:
+                    raise ValueError(f"condition does not evaluate: {cond}")
+            return sympy.nan
+        if isinstance(e, (And, Or)):
+            absorbing = sympy.false if isinstance(e, And) else sympy.true
+            unknown = None
+            for a in e.args:
+                try:
+                    v = ev(a)
+                except Exception as ex:  # noqa: BLE001
+                    unknown = ex
+                    continue
+                if v is absorbing:
+                    return absorbing
+                if v is not sympy.true and v is not sympy.false:
+                    unknown = ValueError(f"not a truth value: {v}")
+            if unknown is not None:
+                raise unknown
+            return sympy.true if isinstance(e, And) else sympy.false
+        if isinstance(e, Not):
+            v = ev(e.args[0])
+            return sympy.false if v is sympy.true else sympy.true if v is sympy.false else sympy.Not(v)
+        if isinstance(e, ITE):
+            cv = ev(e.args[0])
+            if cv is sympy.true:
+                return ev(e.args[1])
+            if cv is sympy.false:
+                return ev(e.args[2])
+            raise ValueError(f"condition does not evaluate: {e.args[0]}")
+        if not e.args:
+            return sub.get(e, e)
+        return e.func(*[ev(a) for a in e.args])
+
+    return ev(expr)
+
+
 def sym_value(expr, subs: dict, exact: bool):
     """Value of ``expr`` under simultaneous substitution; ('num', float|Fraction) | ('bool', b) | ('bad', text)."""
     import sympy
@@ -85,21 +156,19 @@ def sym_value(expr, subs: dict, exact: bool):
             sub = {k: sympy.Rational(v.numerator, v.denominator) for k, v in subs.items()}
         else:
             sub = {k: sympy.Float(float(v)) for k, v in subs.items()}
-        r = expr.subs(sub, simultaneous=True)
-        if r is sympy.true or r is sympy.false:
-            return ("bool", bool(r))
-        if getattr(r, "free_symbols", None):
-            return ("bad", f"free symbols remain: {sorted(map(str, r.free_symbols))}")
-        if not getattr(r, "is_number", False):
-            r = sympy.simplify(r)
-        if r.is_Rational:
-            return ("num", Fraction(int(r.p), int(r.q)))
-        c = complex(r)
-        if c != c or abs(c.imag) > 1e-12 or abs(c.real) == float("inf"):
-            return ("bad", f"not a finite real number: {r}")
-        return ("num", c.real)
+        try:
+            res = _finish_value(expr.subs(sub, simultaneous=True))
+        except Exception as e:  # noqa: BLE001
+            res = ("bad", f"evaluation raised {type(e).__name__}: {str(e)[:120]}")
+        if res[0] == "bad" and expr.has(sympy.Piecewise, sympy.logic.boolalg.BooleanFunction):
+            res = _finish_value(lazy_eval(expr, sub))
+            LAZY_USED[0] += 1
+        return res
     except Exception as e:  # noqa: BLE001
         return ("bad", f"evaluation raised {type(e).__name__}: {str(e)[:120]}")
+
+
+LAZY_USED = [0]
 
 
 def agrees(val, expected) -> bool:
@@ -130,6 +199,7 @@ def check_translation(fn, params: list[str], names: list[str], pts: list[dict]) 
         except Exception as e:  # noqa: BLE001
             return {"refused": f"not an expression: {type(e).__name__}"}
     bad, checked, floatfrag = [], 0, 0
+    lazy0 = LAZY_USED[0]
     for pt in pts:
         env = pt["env"]
         subs, ok = {}, True
@@ -151,7 +221,8 @@ def check_translation(fn, params: list[str], names: list[str], pts: list[dict]) 
             continue
         bad.append({"point": {p: str(x) for p, x in env.items()}, "expected": str(pt["v"]),
                     "float_eval": str(v[1]), "exact_eval": str(vx[1])})
-    return {"expr": str(expr)[:300], "checked": checked, "bad": bad, "floatfrag": floatfrag}
+    return {"expr": str(expr)[:300], "checked": checked, "bad": bad, "floatfrag": floatfrag,
+            "lazy": LAZY_USED[0] - lazy0}
 
 
 # ---------------------------------------------------------------------------------------------------
@@ -436,6 +507,8 @@ def run(ctx: Ctx) -> int:
         "points where CPython's float result differs from the exact result are excluded as fragile (counted)",
         "a translated expression is evaluated with floats first and, on disagreement, exactly (Floats "
         "rationalised); only a disagreement of both is a mismatch",
+        "when expr.subs raises or gives no number because sympy evaluates pieces / conjuncts the first-true-wins "
+        "reading never needs (zoo < 1 in a later piece), the expression is evaluated lazily (Kleene logic for And/Or)",
     ]
     res = ctx.tlc("ExprCheck.tla", "ExprCheck.cfg", workers=1)
     rep.add_tlc(res, "unit checks of Rat / Expr / PyFn / Piecewise (ASSUMEs)")
@@ -473,7 +546,7 @@ def run(ctx: Ctx) -> int:
 
 def judge(ctx: Ctx, rep: Report, progs: list[dict], results: list[dict], lib: dict) -> None:
     stats = {"programs": len(progs), "refused": 0, "translated": 0, "points_checked": 0, "fragile_points": 0,
-             "skipped_points": 0, "float_fragile": 0, "refusal_kinds": {}, "by_origin": {}}
+             "skipped_points": 0, "float_fragile": 0, "lazy_evaluations": 0, "refusal_kinds": {}, "by_origin": {}}
     bad_spec = []
     for p, r in zip(progs, results, strict=True):
         if r["problems"]:
@@ -492,6 +565,7 @@ def judge(ctx: Ctx, rep: Report, progs: list[dict], results: list[dict], lib: di
             stats["translated"] += 1
             stats["points_checked"] += rr["checked"]
             stats["float_fragile"] += rr["floatfrag"]
+            stats["lazy_evaluations"] += rr.get("lazy", 0)
             rep.evaluations += rr["checked"]
             if rr["checked"]:
                 rep.distinct.add((p["key"], tuple(rr["names"])))
